@@ -376,13 +376,18 @@ def oracle(case, obs):
     out = []
     opt = None           # (append, path) while save_stream_file is set
     opened = set()       # started while saving, not completed / flushed since
-    lost = False         # a switch to an unopenable path was rejected while saving was active
+    lost = False         # a switch to an unopenable path was rejected while saving was active and the addon
+                         # came out of it with save_stream_file set but self.stream gone (the known finding)
     files = [None, None]
 
     def report(key, what, missing):
-        if lost and missing:
-            key = "no-records-after-rejected-file-switch"
-        out.append({"key": key, "what": what})
+        # Once the stream has been lost that way the addon is out of step with its options for the rest of the
+        # history (nothing recorded, starts not tracked, completed flows not forgotten, the old path not reopened
+        # even by unset + re-set): every later discrepancy in that history belongs to the known finding.
+        if lost:
+            key, what = "no-records-after-rejected-file-switch", "after a rejected switch to an unopenable path: " + what
+        if all(v["key"] != key for v in out):
+            out.append({"key": key, "what": what})
 
     for t, (ev, o) in enumerate(zip(case["evs"], obs["steps"])):
         new = [o["f0"], o["f1"]]
@@ -410,7 +415,8 @@ def oracle(case, obs):
                 expect[p] = (files[p] or []) if app else []
             opt = (app, p)
         elif o["err"] and "file" in ev[1] and ev[1]["file"] not in (None, "") and ev[1]["file"][1] == BAD and opt is not None:
-            lost = True
+            if o["opt"] and not o["open"]:
+                lost = True
         for k in (0, 1):
             if new[k] == expect[k]:
                 continue
@@ -435,7 +441,7 @@ def oracle(case, obs):
         files = new
         if ev[0] == "done":
             break            # the statement covers the history up to shutdown
-    return out[:1]
+    return out
 
 
 def _written(obs):
